@@ -842,12 +842,19 @@ fn run_op(a: &[&str]) -> R {
                 _ => return Ok("fail credentials".into()),
             };
             let ver0 = SrpVerifier::from_username_and_password(nus, nps);
-            let ver = if *via == "1" {
-                // export to storage (String, [u8;32], [u8;32]) and re-import
+            let ver = if *via != "0" {
+                // export to storage (String, [u8;32], [u8;32]) and re-import, through each of the constructors
                 let name: String = ver0.username().to_string();
                 let v = *ver0.password_verifier();
                 let s = *ver0.salt();
-                match NormalizedString::new(name) {
+                let re = match *via {
+                    "2" => NormalizedString::from_string(name),
+                    "3" => std::convert::TryFrom::try_from(name),
+                    "4" => NormalizedString::from_str(name.as_str()),
+                    "5" => std::convert::TryFrom::try_from(name.as_str()),
+                    _ => NormalizedString::new(name),
+                };
+                match re {
                     Ok(n) => SrpVerifier::from_database_values(n, v, s),
                     Err(_) => return Ok("fail reimport".into()),
                 }
@@ -1162,6 +1169,18 @@ fn run_op(a: &[&str]) -> R {
                 Some((x, y)) => format!("some {} {}", x, y),
                 None => "none".into(),
             }
+        }
+        ["mc.coordseq", count, h, seed, w, k, rounds] => {
+            // several rounds asked on ONE verifier, in the given (arbitrary) order
+            let mut v = matrix_card::MatrixCardVerifier::new(num(count)?, num(h)?, num(seed)?, num(w)?, &arr(k)?);
+            let mut out = Vec::new();
+            for r in rounds.split(',') {
+                out.push(match v.get_matrix_coordinates(num(r)?) {
+                    Some((x, y)) => format!("{}:{}", x, y),
+                    None => "none".to_string(),
+                });
+            }
+            out.join(" ")
         }
         ["mc.proof", count, h, seed, w, k, vals] => {
             let mut v = matrix_card::MatrixCardVerifier::new(num(count)?, num(h)?, num(seed)?, num(w)?, &arr(k)?);
